@@ -546,6 +546,17 @@ def replay_case(record: Dict[str, Any], journal: Any) -> Dict[str, Any]:
     return {'counters': counters, 'violations': violations, 'evaluations': 1, 'hashes': []}
 
 
+def shard_crash(spec: Dict[str, Any], res: Dict[str, Any]) -> Optional[Dict[str, Any]]:
+    """a device failure or an interrupt that takes the whole interpreter process down (a fatal signal, not a timeout and not
+    this harness's memory budget) did not stop the run "at a consistent point": the journal holds the case."""
+    rc = res.get('rc')
+    if isinstance(rc, int) and rc < 0 and res.get('journal'):
+        return {'key': f'process-died/{spec.get("kind", "sync")}/signal{-rc}',
+                'what': f'the worker died with signal {-rc} while handling a device failure / interrupt: {res.get("log_tail", "")[-200:]}',
+                'replay': {'journal': res['journal']}}
+    return None
+
+
 def finalize(tier: str, seed: int, counters: Dict[str, Any], evaluations: int, distinct: int) -> Dict[str, Any]:
     inconclusive = []
     faults = counters.get('faults', {})
